@@ -123,6 +123,10 @@ def run_tlc(mod, cfg, *, workers=8, timeout=600, simulate=None, seed=None, tla=N
         env = dict(os.environ)
         if env_extra:
             env.update(env_extra)
+        # small models: do not let every JVM start 16 GC threads (many checks run side by side)
+        jto = env.get("JAVA_TOOL_OPTIONS", "")
+        if "ParallelGCThreads" not in jto:
+            env["JAVA_TOOL_OPTIONS"] = (jto + " -XX:ParallelGCThreads=4").strip()
         t0 = time.time()
         p = subprocess.Popen(cmd, cwd=d, stdout=subprocess.PIPE, stderr=subprocess.STDOUT,
                              text=True, env=env, errors="replace")
